@@ -59,6 +59,14 @@ bounds_family("bounds_author_key", "bounds_author_key", ["C05"], [(1, 1, "quick"
 bounds_family("bounds_namespace", "bounds_namespace", ["C08", "C16", "C05"], [(1, 1, "quick"), (0, 1, "quick"), (1, 0, "quick"), (2, 1, "thorough")])
 bounds_family("bounds_bykey", "bounds_bykey", ["C05", "C16"], [(0, 1, "quick"), (1, 1, "quick"), (1, 2, "quick"), (2, 1, "quick"), (2, 2, "thorough")])
 
+# =============================================================================================
+# generic ranger code over the light instantiation L (E1): C02 put law
+# =============================================================================================
+h("put_step_n3", "ranger_l::put_step::<S, 3>", ["C02", "C01"], "quick", unwind=4, family="put_step")
+h("put_step_n4", "ranger_l::put_step::<S, 4>", ["C02", "C01"], "quick", unwind=5, family="put_step")
+h("put_commute_n4", "ranger_l::put_commute::<S, 4>", ["C02", "C04"], "quick", unwind=5, family="put_commute")
+h("put_commute_n5", "ranger_l::put_commute::<S, 5>", ["C02", "C04"], "thorough", unwind=6, family="put_commute")
+
 COMMON_ASSUMPTIONS = [
     "bytes::Bytes drop/clone replaced by no-op/deep copy (allocation lifetime abstracted; memory safety of `bytes` not claimed)",
     "tracing macros disabled by stubs (Kani cannot compile thread_local dispatch); anyhow backtrace capture disabled",
